@@ -1,6 +1,7 @@
 import Refine.Model.Guards
 import Refine.Lemmas.GuardsRules
 import Refine.Lemmas.GuardsReal
+import Refine.Props.C15
 
 /-!
   C02: adaptation without a CAD model never changes the computational domain.
@@ -416,5 +417,231 @@ example : splitEdgeMixed prismGrid 0 1 = false ∧ splitEdgeMixed prismGrid 0 4 
     splitEdgeMixed prismGrid 0 6 = true := by decide
 example : swapEdgeMixed prismGrid 0 3 = false ∧ cavityMixed prismGrid 6 0 = false ∧
     cavityMixed prismGrid 6 7 = true := by decide
+
+/-! ## (c) exact conservation identities (ℝ) -/
+section Conservation
+open Refine.Model.Geom Refine.ScalarReal Refine.GeomReal Refine.GuardsReal
+
+/-- **`interpolateEdge_on_segment`**: the trial vertex of `ref_split_pass` is `(1-t)·a + t·b` with
+    `t = MIN(0.95, MAX(0.05, w)) ∈ [0.05, 0.95]`, whatever raw weight `w` the metric produced -/
+theorem interpolateEdge_on_segment (xyz : List (V3 ℝ)) (n0 n1 : Nat) (w : ℝ) :
+    splitPoint xyz n0 n1 w = vadd (vsmul (1 - clampWeight w) (pt xyz n0)) (vsmul (clampWeight w) (pt xyz n1)) ∧
+    (0.05 : ℝ) ≤ clampWeight w ∧ clampWeight w ≤ 0.95 := by
+  refine ⟨?_, clampWeight_mem w⟩
+  unfold splitPoint interpolateEdge
+  rw [interpolateEdgeXyz_eq]
+
+/-- a weight that already lies in `[0.05, 0.95]` is used unchanged -/
+theorem clamp_identity {w : ℝ} (h0 : 0.05 ≤ w) (h1 : w ≤ 0.95) : clampWeight w = w := clampWeight_id h0 h1
+
+/-- **planar meshes stay in their plane**: if both ends of the edge satisfy the plane equation
+    `ν·p = d` so does the inserted vertex (any weight); in particular `z` is kept when both ends share `z` -/
+theorem interpolateEdge_in_plane (a b ν : V3 ℝ) (d w : ℝ) (ha : vdot ν a = d) (hb : vdot ν b = d) :
+    vdot ν (interpolateEdgeXyz a b w) = d := by
+  rw [interpolateEdgeXyz_eq]
+  simp only [vdot, vadd, vsmul] at *
+  have : ν.x * ((1 - w) * a.x + w * b.x) + ν.y * ((1 - w) * a.y + w * b.y) + ν.z * ((1 - w) * a.z + w * b.z)
+      = (1 - w) * (ν.x * a.x + ν.y * a.y + ν.z * a.z) + w * (ν.x * b.x + ν.y * b.y + ν.z * b.z) := by ring
+  rw [this, ha, hb]; ring
+
+theorem interpolateEdge_keeps_z (a b : V3 ℝ) (w : ℝ) (h : a.z = b.z) : (interpolateEdgeXyz a b w).z = a.z := by
+  rw [interpolateEdgeXyz_eq]
+  simp only [vadd, vsmul]
+  rw [← h]; ring
+
+/-- **`split_volume`**: splitting the edge `a–b` of a tet at `m = (1-t)a + t b` replaces it by two tets whose
+    volumes add up to the original exactly, and for `0 < t < 1` both keep the sign of the original -/
+theorem split_volume (a b c d : V3 ℝ) (t : ℝ) :
+    tetVol (interpolateEdgeXyz a b t) b c d + tetVol a (interpolateEdgeXyz a b t) c d = tetVol a b c d ∧
+    (0 < t → t < 1 → 0 < tetVol a b c d →
+      0 < tetVol (interpolateEdgeXyz a b t) b c d ∧ 0 < tetVol a (interpolateEdgeXyz a b t) c d) := by
+  rw [interpolateEdgeXyz_eq]
+  obtain ⟨h1, h2⟩ := Refine.Props.C15.tetVol_split a b c d t
+  rw [h1, h2]
+  refine ⟨by ring, fun h0 h1' hv => ⟨?_, ?_⟩⟩
+  · exact mul_pos (by linarith) hv
+  · exact mul_pos h0 hv
+
+/-- the two boundary triangles created by a split have normals `(1-t)·N` and `t·N` -/
+theorem split_tri_normal (a b c : V3 ℝ) (t : ℝ) :
+    triNormal (interpolateEdgeXyz a b t) b c = vsmul (1 - t) (triNormal a b c) ∧
+    triNormal a (interpolateEdgeXyz a b t) c = vsmul t (triNormal a b c) := by
+  rw [interpolateEdgeXyz_eq]
+  constructor <;>
+  · simp only [triNormal, cross, V3.sub, vadd, vsmul, sub_eq, mul_eq]
+    apply v3ext <;> simp only [] <;> ring
+
+theorem triArea_smul (s : ℝ) (hs : 0 ≤ s) (n : V3 ℝ) :
+    Real.sqrt (vdot (vsmul s n) (vsmul s n)) = s * Real.sqrt (vdot n n) := by
+  have : vdot (vsmul s n) (vsmul s n) = s ^ 2 * vdot n n := by simp only [vdot, vsmul]; ring
+  rw [this, Real.sqrt_mul (sq_nonneg s), Real.sqrt_sq hs]
+
+/-- **`split_tri_area`**: the patch area is conserved exactly by a split — the two new triangles have areas
+    `(1-t)·A` and `t·A` (same plane, same orientation: their normals are positive multiples of the old one) -/
+theorem split_tri_area (a b c : V3 ℝ) (t : ℝ) (h0 : 0 ≤ t) (h1 : t ≤ 1) :
+    triArea (interpolateEdgeXyz a b t) b c = (1 - t) * triArea a b c ∧
+    triArea a (interpolateEdgeXyz a b t) c = t * triArea a b c ∧
+    triArea (interpolateEdgeXyz a b t) b c + triArea a (interpolateEdgeXyz a b t) c = triArea a b c := by
+  obtain ⟨n1, n2⟩ := split_tri_normal a b c t
+  have e1 : triArea (interpolateEdgeXyz a b t) b c = (1 - t) * triArea a b c := by
+    rw [Refine.Props.C15.triArea_eq, Refine.Props.C15.triArea_eq, n1, triArea_smul _ (by linarith)]; ring
+  have e2 : triArea a (interpolateEdgeXyz a b t) c = t * triArea a b c := by
+    rw [Refine.Props.C15.triArea_eq, Refine.Props.C15.triArea_eq, n2, triArea_smul _ h0]; ring
+  refine ⟨e1, e2, ?_⟩
+  rw [e1, e2]; ring
+
+/-- length of a boundary segment (2-D patch measure) -/
+noncomputable def segLen (a b : V3 ℝ) : ℝ := Real.sqrt (vdot (V3.sub b a) (V3.sub b a))
+
+/-- 2-D: a split conserves the length of the boundary segment it cuts -/
+theorem split_edg_length (a b : V3 ℝ) (t : ℝ) (h0 : 0 ≤ t) (h1 : t ≤ 1) :
+    segLen a (interpolateEdgeXyz a b t) + segLen (interpolateEdgeXyz a b t) b = segLen a b := by
+  rw [interpolateEdgeXyz_eq]
+  have e1 : V3.sub (vadd (vsmul (1 - t) a) (vsmul t b)) a = vsmul t (V3.sub b a) := by
+    simp only [V3.sub, vadd, vsmul, sub_eq]; apply v3ext <;> simp only [] <;> ring
+  have e2 : V3.sub b (vadd (vsmul (1 - t) a) (vsmul t b)) = vsmul (1 - t) (V3.sub b a) := by
+    simp only [V3.sub, vadd, vsmul, sub_eq]; apply v3ext <;> simp only [] <;> ring
+  unfold segLen
+  rw [e1, e2, triArea_smul _ h0, triArea_smul _ (by linarith)]; ring
+
+/-- **`swap_area`** (vector form, any four points): the two triangles before the swap of edge `a–b` with
+    third nodes `c`, `d` and the two triangles after it have the same total vector area -/
+theorem swap_vector_area (a b c d : V3 ℝ) :
+    vadd (triNormal a b c) (triNormal b a d) = vadd (triNormal a d c) (triNormal b c d) := by
+  simp only [triNormal, cross, V3.sub, vadd, sub_eq, mul_eq]
+  apply v3ext <;> simp only [] <;> ring
+
+/-- the area of a triangle in a plane `z = const`, counter-clockwise: half the z-component of its normal -/
+theorem triArea_planar (a b c : V3 ℝ) (hx : (triNormal a b c).x = 0) (hy : (triNormal a b c).y = 0)
+    (hz : 0 ≤ (triNormal a b c).z) : triArea a b c = (triNormal a b c).z / 2 := by
+  rw [Refine.Props.C15.triArea_eq]
+  have : vdot (triNormal a b c) (triNormal a b c) = (triNormal a b c).z ^ 2 := by
+    simp only [vdot]; rw [hx, hy]; ring
+  rw [this, Real.sqrt_sq hz]
+
+/-- **`swap_area`**: for a planar quad (all four points share `z`) whose old and new triangles are all
+    counter-clockwise, the swap leaves the area sum unchanged -/
+theorem swap_area (a b c d : V3 ℝ) (hab : a.z = b.z) (hac : a.z = c.z) (had : a.z = d.z)
+    (o1 : 0 ≤ (triNormal a b c).z) (o2 : 0 ≤ (triNormal b a d).z)
+    (o3 : 0 ≤ (triNormal a d c).z) (o4 : 0 ≤ (triNormal b c d).z) :
+    triArea a b c + triArea b a d = triArea a d c + triArea b c d := by
+  have hv := swap_vector_area a b c d
+  have hz : (triNormal a b c).z + (triNormal b a d).z = (triNormal a d c).z + (triNormal b c d).z := by
+    have := congrArg V3.z hv
+    simpa [vadd] using this
+  have px : ∀ p q r : V3 ℝ, p.z = q.z → p.z = r.z → (triNormal p q r).x = 0 ∧ (triNormal p q r).y = 0 := by
+    intro p q r h1 h2
+    simp only [triNormal, cross, V3.sub, sub_eq, mul_eq]
+    rw [← h1, ← h2]; constructor <;> ring
+  rw [triArea_planar a b c (px a b c hab hac).1 (px a b c hab hac).2 o1,
+    triArea_planar b a d (px b a d hab.symm (hab.symm.trans had)).1 (px b a d hab.symm (hab.symm.trans had)).2 o2,
+    triArea_planar a d c (px a d c had hac).1 (px a d c had hac).2 o3,
+    triArea_planar b c d (px b c d (hab.symm.trans hac) (hab.symm.trans had)).1
+      (px b c d (hab.symm.trans hac) (hab.symm.trans had)).2 o4]
+  linarith
+
+/-- non-vacuity: the unit square split along one diagonal, swapped to the other -/
+example : (triNormal (⟨0, 0, 0⟩ : V3 ℝ) ⟨1, 1, 0⟩ ⟨0, 1, 0⟩).z = 1 ∧
+    (triNormal (⟨1, 1, 0⟩ : V3 ℝ) ⟨0, 0, 0⟩ ⟨1, 0, 0⟩).z = 1 ∧
+    (triNormal (⟨0, 0, 0⟩ : V3 ℝ) ⟨1, 0, 0⟩ ⟨0, 1, 0⟩).z = 1 ∧
+    (triNormal (⟨1, 1, 0⟩ : V3 ℝ) ⟨0, 1, 0⟩ ⟨1, 0, 0⟩).z = 1 := by
+  simp only [triNormal, cross, V3.sub, sub_eq, mul_eq]; norm_num
+
+example : (0.05 : ℝ) ≤ clampWeight (7 : ℝ) ∧ clampWeight (7 : ℝ) = 0.95 ∧ clampWeight (-3 : ℝ) = 0.05 ∧
+    clampWeight (0.3 : ℝ) = 0.3 := by
+  refine ⟨(clampWeight_mem 7).1, ?_, ?_, clampWeight_id (by norm_num) (by norm_num)⟩
+  · rw [clampWeight_eq]; norm_num
+  · rw [clampWeight_eq]; norm_num
+
+end Conservation
+
+/-! ## (d) what the same-normal guard gives -/
+section SameNormal
+open Refine.Model.Geom Refine.ScalarReal Refine.GeomReal Refine.GuardsReal
+
+/-- **`sameNormal_bound`**: when `ref_collapse_edge_same_normal` passes, every boundary triangle around
+    node1 that survives the collapse (does not contain node0) has a unit normal before (`u`) and after
+    (`u'`) the substitution node1 ↦ node0, and `u·u' ≥ same_normal_tol = 1 - 1e-8` -/
+theorem sameNormal_bound (g : Grid) (xyz : List (V3 ℝ)) (n0 n1 : Nat)
+    (h : collapseEdgeSameNormal g xyz n0 n1 = (.ok, true)) :
+    ∀ c ∈ g.tri, n1 ∈ c.nodes →
+      (n0 = c.nd 0 ∨ n0 = c.nd 1 ∨ n0 = c.nd 2) ∨
+      ∃ u u', normalize (cellNormal xyz c.nodes) = (St.ok, u) ∧
+        normalize (cellNormal xyz (Guards.subst n1 n0 c.nodes)) = (St.ok, u') ∧
+        (sameNormalTol : ℝ) ≤ vdot u u' := by
+  intro c hc hn
+  unfold collapseEdgeSameNormal at h
+  have hall := firstSome_all_none _ _ _ (sameNormalStep_ne xyz n0 n1) h
+  exact sameNormalStep_none (hall c (mem_having.mpr ⟨hc, hn⟩))
+
+/-- … hence no surviving boundary triangle is inverted or flattened: the un-normalised normals before and
+    after have a strictly positive dot product -/
+theorem sameNormal_no_flip (g : Grid) (xyz : List (V3 ℝ)) (n0 n1 : Nat)
+    (h : collapseEdgeSameNormal g xyz n0 n1 = (.ok, true)) (c : Cell) (hc : c ∈ g.tri) (hn : n1 ∈ c.nodes)
+    (hs : ¬ (n0 = c.nd 0 ∨ n0 = c.nd 1 ∨ n0 = c.nd 2)) :
+    0 < vdot (cellNormal xyz c.nodes) (cellNormal xyz (Guards.subst n1 n0 c.nodes)) := by
+  rcases sameNormal_bound g xyz n0 n1 h c hc hn with h' | ⟨u, u', hu, hu', hb⟩
+  · exact absurd h' hs
+  · obtain ⟨l0, e0⟩ := normalize_ok hu
+    obtain ⟨l1, e1⟩ := normalize_ok hu'
+    generalize cellNormal xyz c.nodes = N at *
+    generalize cellNormal xyz (Guards.subst n1 n0 c.nodes) = N' at *
+    have p0 : 0 < Real.sqrt (vdot N N) := lt_of_le_of_ne (Real.sqrt_nonneg _) (Ne.symm l0)
+    have p1 : 0 < Real.sqrt (vdot N' N') := lt_of_le_of_ne (Real.sqrt_nonneg _) (Ne.symm l1)
+    have hpos : 0 < vdot u u' := lt_of_lt_of_le sameNormalTol_pos hb
+    rw [e0, e1] at hpos
+    simp only [vdot] at hpos ⊢
+    have : N.x / Real.sqrt (vdot N N) * (N'.x / Real.sqrt (vdot N' N')) +
+        N.y / Real.sqrt (vdot N N) * (N'.y / Real.sqrt (vdot N' N')) +
+        N.z / Real.sqrt (vdot N N) * (N'.z / Real.sqrt (vdot N' N')) =
+        (N.x * N'.x + N.y * N'.y + N.z * N'.z) / (Real.sqrt (vdot N N) * Real.sqrt (vdot N' N')) := by
+      field_simp
+    simp only [vdot] at this
+    rw [this] at hpos
+    have hden : 0 < Real.sqrt (N.x * N.x + N.y * N.y + N.z * N.z) * Real.sqrt (N'.x * N'.x + N'.y * N'.y + N'.z * N'.z) := by
+      simp only [vdot] at p0 p1
+      exact mul_pos p0 p1
+    exact (div_pos_iff_of_pos_right hden).mp hpos
+
+/-- **`planar_collapse_stays_planar`**: if every vertex of the boundary triangles of a patch lies in the
+    plane `ν·p = d`, and node0 is a vertex of one of them (which is what the face-id rule demands of an
+    allowed collapse of a patch vertex: `patch_rule'`), then every vertex of every triangle after the
+    substitution node1 ↦ node0 lies in that plane: the patch is not lifted off its plane.
+    (That the triangles also keep their orientation is `sameNormal_no_flip`.) -/
+theorem planar_collapse_stays_planar (tris : List Cell) (xyz : List (V3 ℝ)) (ν : V3 ℝ) (d : ℝ) (n0 n1 : Nat)
+    (hplane : ∀ c ∈ tris, ∀ n ∈ c.nodes, vdot ν (pt xyz n) = d)
+    (h0 : ∃ c ∈ tris, n0 ∈ c.nodes) :
+    ∀ c ∈ collapseGroup tris n0 n1, ∀ n ∈ c.nodes, vdot ν (pt xyz n) = d := by
+  intro c hc n hn
+  obtain ⟨c', hc', _, rfl⟩ := mem_collapseGroup.mp hc
+  unfold Cell.subst at hn
+  simp only [List.mem_map] at hn
+  obtain ⟨m, hm, rfl⟩ := hn
+  split
+  · obtain ⟨c0, hc0, hn0⟩ := h0
+    exact hplane c0 hc0 n0 hn0
+  · exact hplane c' hc' m hm
+
+/-- **vector area of a fan does not depend on its apex** when the ring is closed (`last = first`): the sum of
+    the triangle normals over the star of an interior patch vertex is the same with apex node1 (before the
+    collapse) and apex node0 (after it; the triangles that had node0 as ring node are the removed ones and
+    contribute the zero vector).  With `sameNormal_no_flip` (all new normals on the old side) this is the
+    conservation of the planar patch area under collapse.  For an open fan (ridge vertex) the difference is
+    `(p - q) × (first - last)`, which vanishes iff node0, node1 and the far ridge neighbour are collinear. -/
+theorem fan_vector_area_apex (p q a : V3 ℝ) (l : List (V3 ℝ)) (hclosed : (a :: l).getLast (by simp) = a) :
+    fanSum p (a :: l) = fanSum q (a :: l) := by
+  rw [fanSum_apex p q a l, hclosed]
+  simp only [vadd, cross, V3.sub, sub_eq, mul_eq]
+  apply v3ext <;> simp only [] <;> ring
+
+theorem fan_vector_area_open (p q a : V3 ℝ) (l : List (V3 ℝ)) :
+    fanSum p (a :: l) = vadd (fanSum q (a :: l)) (cross (V3.sub p q) (V3.sub a ((a :: l).getLast (by simp)))) :=
+  fanSum_apex p q a l
+
+/-- non-vacuity of `sameNormal_bound`: a flat fan in `z = 0`, collapse of the centre onto a ring node -/
+example : (triNormal (⟨0, 0, 0⟩ : V3 ℝ) ⟨1, 0, 0⟩ ⟨0, 1, 0⟩).z = 1 := by
+  simp only [triNormal, cross, V3.sub, sub_eq, mul_eq]; norm_num
+
+end SameNormal
 
 end Refine.Props.C02
